@@ -82,7 +82,8 @@ class C20(Prop):
                     continue
                 seen.add(tuple(sh))
                 out.append(dict(base, route="cli", shape=sh, spelling=("create", "new")[k % 2],
-                                announce_flag=("-a", "--announce", "--tracker")[k % 3]))
+                                announce_flag=("-a", "--announce", "--tracker")[k % 3],
+                                magnet_flag=k % 4 == 1, pre=([], ["-q"], ["-v"])[k % 3]))
         return out
 
     def corruptions(self, recs):
